@@ -7,6 +7,7 @@
  *   OK (rootLevel > 0)                -> link's correction was set exactly once to old + rootLevel (<= 0xff), and the
  *                                        chain's TLV was rebuilt from the updated chain and put in place of the old one
  * No object made on the way is left behind (integers, TLVs, chain objects). */
+static int add(KSI_uint64_t r, KSI_uint64_t l, KSI_uint64_t *res);
 static int updateLevelCorrection(KSI_Signature *sig, KSI_uint64_t rootLevel,
 		int (*calcLevelCorrection)(KSI_uint64_t, KSI_uint64_t, KSI_uint64_t*))
 __CPROVER_requires(calcLevelCorrection == add)
@@ -15,10 +16,11 @@ __CPROVER_requires(g_b.set_calls == 0 && g_b.int_live == (g_b.has_old ? 1 : 0) &
 __CPROVER_requires(g_b_link.levelCorrection == (g_b.has_old ? &g_b_oldint : NULL) && g_b_oldint.value == g_b.old_value)
 __CPROVER_ensures(IMPLIES(sig != NULL && rootLevel == 0, __CPROVER_return_value == KSI_OK && g_b.set_calls == 0))
 __CPROVER_ensures(IMPLIES(sig != NULL && rootLevel > 0xff, __CPROVER_return_value == KSI_INVALID_FORMAT && g_b.set_calls == 0))
-__CPROVER_ensures(IMPLIES(sig != NULL && rootLevel > 0 && rootLevel <= 0xff && (g_b.has_old ? g_b.old_value : 0) + rootLevel > 0xff,
+__CPROVER_ensures(IMPLIES(sig != NULL && rootLevel > 0 && rootLevel <= 0xff && (g_b.has_old ? g_b.old_value : 0) > 0xff - rootLevel,   /* (no 64-bit wrap in the specification) */
 		__CPROVER_return_value != KSI_OK && g_b.set_calls == 0 && g_b_link.levelCorrection == (g_b.has_old ? &g_b_oldint : NULL)))
 __CPROVER_ensures(IMPLIES(sig != NULL && rootLevel > 0 && __CPROVER_return_value == KSI_OK,
 		rootLevel <= 0xff && g_b.set_calls == 1 && g_b.set_res == KSI_OK &&
+		(g_b.has_old ? g_b.old_value : 0) <= 0xff - rootLevel &&
 		g_b.set_value == (g_b.has_old ? g_b.old_value : 0) + rootLevel && g_b.set_value <= 0xff &&
 		g_b_link.levelCorrection != NULL && g_b_link.levelCorrection->value == g_b.set_value &&
 		g_b.construct_calls == 1 && g_b.construct_payload == (const void *)&g_b_aggr &&
